@@ -218,11 +218,36 @@ Proof.
   destruct (compatible (uu b) (uu ge)); cbn [negb]; eauto.
 Qed.
 
+Lemma alink_ex : forall Un c k a d b x, faithful Un -> sound Un c ->
+  (forall k', k = Some k' -> In k' Un) -> In a Un -> In d Un -> In b Un ->
+  exists c', m_alink c k a d b x = (p_alink k a d b x, c') /\ sound Un c'.
+Proof.
+  intros Un c k a d b x HF HS Hk Ha Hd Hb. unfold m_alink, p_alink.
+  destruct (accepts_ex _ c b d HF HS Hb Hd) as (c1 & E1 & S1). rewrite E1. clear E1.
+  destruct (compatible (uu b) (uu d)); cbn [negb]; [|eauto].
+  assert (P : exists c2,
+    (match k with None => (inl (a, false, x), c1) | Some k0 => m_prepare c1 k0 a x end)
+    = (match k with None => inl (a, false, x) | Some k0 => p_prepare k0 a x end, c2)
+    /\ sound Un c2).
+  { destruct k as [k0|]; [|eauto]. apply prepare_ex; auto. }
+  destruct P as (c2 & E2 & S2). rewrite E2. clear E2.
+  destruct (match k with None => inl (a, false, x) | Some k0 => p_prepare k0 a x end)
+    as [[[se cs] xs]|e]; [|eauto].
+  destruct (prepare_ex _ c2 d d xs HF S2 Hd Hd) as (c3 & E3 & S3). rewrite E3. clear E3.
+  destruct (p_prepare d d xs) as [[[de cd] xd]|e] eqn:ED; [|eauto].
+  assert (Hde : In de Un) by (apply p_prepare_ent in ED; destruct ED; subst; auto).
+  destruct (to_units_ex _ c3 de b true xd HF S3 Hde Hb) as (c4 & E4 & S4). rewrite E4. clear E4.
+  destruct (p_to_units de b true xd) as [[[ge cv] xg]|e] eqn:EG; [|eauto].
+  assert (Hg : In ge Un) by (apply p_to_units_ent in EG; destruct EG; subst; auto).
+  use_query HF S4 Hb Hg c5 E S5.
+  destruct (compatible (uu b) (uu ge)); cbn [negb]; eauto.
+Qed.
+
 Lemma step_ex : forall Un c o, faithful Un -> sound Un c -> incl (op_ents o) Un ->
   exists c', step c o = (pure_res o, c') /\ sound Un c'.
 Proof.
   intros Un c o HF HS HI.
-  destruct o as [|a b|a b|a b|a b|a b chk x|a b x|k a b x]; cbn [step pure_res].
+  destruct o as [|a b|a b|a b|a b|a b chk x|a b x|k a b x|k a d b x]; cbn [step pure_res].
   - exists []. split; [reflexivity|apply sound_nil].
   - assert (Ha : In a Un) by (apply HI; simpl; auto). assert (Hb : In b Un) by (apply HI; simpl; auto).
     use_query HF HS Ha Hb c1 E S1. eauto.
@@ -239,6 +264,11 @@ Proof.
     + intros k' ->. apply HI. simpl. auto.
     + apply HI. destruct k; simpl; auto.
     + apply HI. destruct k; simpl; auto.
+  - apply alink_ex; auto.
+    + intros k' ->. apply HI. simpl. auto.
+    + apply HI. destruct k; simpl; auto.
+    + apply HI. destruct k; simpl; auto.
+    + apply HI. destruct k; simpl; auto 6.
 Qed.
 
 (** Main refinement: from any sound memo (in particular the empty one), for every session of
@@ -514,4 +544,50 @@ Proof.
     destruct (p_to_units_value Un a b x ge cv xg HF HW HO Ha Hb EG) as (E1 & E2 & E3).
     rewrite E2, compatible_refl. cbn [negb]. rewrite E1.
     do 2 eexists. split; [reflexivity|]. exact E3.
+Qed.
+
+(** * A link through a unit-changing adapter: the consumer's units are judged against the units the
+      adapter DELIVERS *)
+
+Lemma alink_refuse_pure : forall k a d b x,
+  compatible (uu d) (uu b) = false -> p_alink k a d b x = RErr ErrMeta.
+Proof.
+  intros k a d b x H. unfold p_alink. rewrite compatible_sym, H. reflexivity.
+Qed.
+
+Theorem alink_refuse : forall Un c k a d b x, faithful Un -> sound Un c ->
+  (forall k', k = Some k' -> In k' Un) -> In a Un -> In d Un -> In b Un ->
+  compatible (uu d) (uu b) = false ->
+  fst (step c (ALink k a d b x)) = RErr ErrMeta.
+Proof.
+  intros Un c k a d b x HF HS Hk Ha Hd Hb H. cbn [step].
+  destruct (alink_ex Un c k a d b x HF HS Hk Ha Hd Hb) as (c1 & E & _). rewrite E. simpl.
+  now apply alink_refuse_pure.
+Qed.
+
+Theorem alink_exact : forall Un k a d b x,
+  faithful Un -> (forall u, In u Un -> wf (uu u)) -> offsets_ok Un ->
+  In k Un -> In a Un -> In d Un -> In b Un ->
+  compatible (uu k) (uu a) = true -> compatible (uu d) (uu b) = true ->
+  exists us cs xs cv y,
+    p_alink (Some k) a d b x = RLink us cs xs (cid b) cv y
+    /\ y == convert (uu d) (uu b) xs
+    /\ (exists se, In se Un /\ cid se = us /\ convert (uu se) (uu a) xs == convert (uu k) (uu a) x).
+Proof.
+  intros Un k a d b x HF HW HO Hk Ha Hd Hb Hka Hdb.
+  unfold p_alink. rewrite (compatible_sym (uu b)), Hdb. cbn [negb].
+  destruct (proj1 (accept_pure k a Hka) x) as (se & cs & xs & EP). rewrite EP.
+  destruct (p_prepare_value Un k a x se cs xs HW HO Hk Ha EP) as (Hse & _ & EV).
+  assert (Hs : In se Un) by (destruct Hse; subst; auto).
+  destruct (proj1 (accept_pure d d (compatible_refl (uu d))) xs) as (de & cd & xd & ED). rewrite ED.
+  destruct (p_prepare_value Un d d xs de cd xd HW HO Hd Hd ED) as (Hde & _ & EVd).
+  assert (Ede : de = d) by (destruct Hde; assumption). subst de.
+  assert (Exd : xd == xs).
+  { rewrite <- (convert_id (uu d) xd) by auto. rewrite EVd. apply convert_id. auto. }
+  destruct (proj1 (proj2 (accept_pure d b Hdb)) true xd) as (ge & cv & xg & EG). rewrite EG.
+  destruct (p_to_units_value Un d b xd ge cv xg HF HW HO Hd Hb EG) as (E1 & E2 & E3).
+  rewrite E2, compatible_refl. cbn [negb]. rewrite E1.
+  do 5 eexists. split; [reflexivity|]. split.
+  - rewrite E3. apply convert_proper. exact Exd.
+  - exists se. repeat split; auto.
 Qed.
